@@ -25,7 +25,8 @@ func universe() []hs.Blob {
 
 func spaces() []*opseq.Space {
 	var out []*opseq.Space
-	specs := bk.Specs(vk.Thorough())
+	// + blobpacked that already holds a packed file (paging and cursors over packed and loose blobs)
+	specs := append(bk.Specs(vk.Thorough()), bk.PrepackedSpec())
 	depth := 4
 	if vk.Thorough() {
 		depth = 5
